@@ -124,15 +124,16 @@ def obj_of(system, mom, vals):
     return vector.obj(**{(MOM.get(n, n) if mom else n): vals[n] for n in names_of(system)})
 
 
-NUMPY_LAYOUTS = ["np()", "np(3)", "np(2,2)", "np(3)-int"]
-AWK_LAYOUTS = ["ak-flat", "ak-jagged", "ak-nested", "ak-option", "ak-record", "ak-rawzip", "ak-regular", "ak-flat-int"]
+NUMPY_LAYOUTS = ["np()", "np(3)", "np(2,2)", "np(3)-int", "np(0)", "np(1)", "np(2,1,2)"]
+AWK_LAYOUTS = ["ak-flat", "ak-jagged", "ak-nested", "ak-option", "ak-record", "ak-rawzip", "ak-regular", "ak-flat-int", "ak-empty", "ak-one"]
 
 
 def nest(layout):
     """shape of the nested python structure (lists of element slots; None = missing)"""
     return {"np()": "E", "np(3)": ["E", "E", "E"], "np(2,2)": [["E", "E"], ["E", "E"]],
             "ak-flat": ["E", "E", "E"], "ak-jagged": [["E", "E"], [], ["E"]], "ak-nested": [[["E"], ["E", "E"]], [], [[]]],
-            "ak-option": [["E", None], None, ["E"]], "ak-record": "E", "object": "E", "ak-rawzip": [["E", "E"], [], ["E"]], "ak-regular": [["E", "E", "E"], ["E", "E", "E"]], "np(3)-int": ["E", "E", "E"], "ak-flat-int": ["E", "E", "E"]}[layout]
+            "ak-option": [["E", None], None, ["E"]], "ak-record": "E", "object": "E", "ak-rawzip": [["E", "E"], [], ["E"]], "ak-regular": [["E", "E", "E"], ["E", "E", "E"]], "np(3)-int": ["E", "E", "E"], "ak-flat-int": ["E", "E", "E"],
+            "np(0)": [], "np(1)": ["E"], "np(2,1,2)": [[["E", "E"]], [["E", "E"]]], "ak-empty": [], "ak-one": [["E"]]}[layout]
 
 
 def fill(struct, f):
@@ -157,6 +158,9 @@ def build(layout, system, mom, rng, extras=False):
     if layout.startswith("np"):
         cols = {key(n): np.array(struct_map(struct, lambda e, n=n: e[n]) if layout != "np()" else struct[n], dtype=np.float64) for n in names}
         return vector.array(cols), struct
+    if layout == "ak-empty":
+        # an empty array of vectors still has the record type of its vectors
+        return vector.zip({key(n): ak.Array(np.zeros(0)) for n in names}), struct
     if layout == "ak-record":
         rec = {key(n): struct[n] for n in names}
         if extras:
